@@ -8,11 +8,17 @@ CHECKS = {
         "mi_fast_divide/align/divide/unalign/pointer->segment->page arithmetic, for every 64-bit input (finite domains by complete vm_compute "
         "enumeration lifted with forallN_spec, the rest parametric). The model's tables and constants are regenerated from /repo on every run "
         "and the model's functions are compared with the compiled functions of /repo/src/static.c on ~10^6 inputs (exhaustive for sizes "
-        "0..2*MI_MEDIUM_OBJ_SIZE_MAX, all bins, all slice counts).",
-   note="Trusted: Coq kernel+vm_compute, the translator harness/gen_dump.c, extraction (ExtrOcamlBasic) and the OCaml/C drivers; the tie between "
-        "model and code is differential (exact on the finite domains, sampled beyond). Interior-pointer lookup is claimed for offsets up to "
+        "0..2*MI_MEDIUM_OBJ_SIZE_MAX, all bins, all slice counts). In addition 35 small pure functions (mi_bin, _mi_bin_size, mi_good_size, "
+        "_mi_align_up/down, _mi_divide_up, mi_slice_bin(8), mi_fast_divide, _mi_page_ptr_unalign, _mi_ptr_segment, the bitmap index helpers, "
+        "arena id helpers ...) are TRANSLATED from /repo's source to Gallina on every run (tools/c2gallina.py over clang's AST -> Gen/Funcs.v) "
+        "and Coq proves each translated function equal to the hand model on the whole 64-bit range, free of undefined C operations on its "
+        "domain, and the C16 laws directly about the translated functions (Properties/C16gen.v).",
+   note="Trusted: Coq kernel+vm_compute, the translators harness/gen_dump.c and tools/c2gallina.py (clang AST, Model/CSem.v; validated on every run "
+        "by replaying the extracted generated functions against the gcc-compiled functions), extraction (ExtrOcamlBasic) and the OCaml/C drivers; "
+        "for the functions that are not translated (struct-pointer arithmetic: _mi_segment_page_of, _mi_segment_page_start_from_slice) the tie is "
+        "differential (exact on the finite domains, sampled beyond). Interior-pointer lookup is claimed for offsets up to "
         "MI_BLOCK_ALIGNMENT_MAX into a block (the largest the aligned entry points produce).",
-   technique="Coq proof over Gallina model + regenerated tables + exhaustive model/implementation differential",
+   technique="Coq proof over Gallina model + source-to-Gallina translator with equivalence proofs + regenerated tables + exhaustive model/implementation differential",
    design="3/C16"),
  "C12": dict(
    text="Machine-checked proof (Coq): for every reachable state of the page model (induction over all operation sequences: malloc, local free, "
@@ -155,8 +161,9 @@ CHECKS = {
    note="Deleting a heap that is incompatible with the backing heap (arena-bound) is modelled as the code does it (pages become heap-less); "
         "freeability there is REFUTED (C10_delete_incompatible_refuted; known finding impl:heap-delete-incompatible, corpus/C10). Block contents and "
         "segments are other layers. The concurrent theorems are about the model of Model/TFree.v; its tie to the code is the scheduler harness "
-        "oracle, not a step-lockstep replay.",
-   technique="Coq inductive invariants (heap queues; interleaving model) + exact queue-dump replay + shadow-oracle traces + deterministic scheduler",
+        "oracle and a schedule-lockstep replay (mode lockheap: every atomic access of mi_heap_new / mi_heap_delete / mi_heap_collect and of the "
+        "concurrent remote frees must be a step of the model); mi_heap_destroy and the backing-heap delete at thread exit are not in that program.",
+   technique="Coq inductive invariants (heap queues; interleaving model) + exact queue-dump replay + shadow-oracle traces + deterministic scheduler + schedule-lockstep",
    design="3/C10"),
  "C15": dict(
    text="Machine-checked proof (Coq): the suitability invariant (every page of a heap lies in a segment whose memid is suitable for the heap's arena; "
@@ -240,10 +247,15 @@ CHECKS = {
         "delayed_free_all + forced page collect yields empty thread lists, used = live and frees every page without live blocks "
         "(quiescent_collect_complete, all_freed_no_pages); processing a delayed block of a full page returns it to its size queue. Tie: lockstep "
         "as in C02, and the scheduler harness scenario in which all blocks are freed by whichever thread gets there first, every owner collects "
-        "and its heap must hold no pages; livelock = step budget exhausted.",
-   note="'Bounded memory' is established structurally (nothing stays behind at quiescence; the every-100th-generic-allocation drain is in the model "
-        "as an operation the owner may start), not as a resident-set measurement.",
-   technique="Coq inductive invariant + quiescence theorem over the interleaving model + schedule-lockstep + deterministic-scheduler quiescence oracle",
+        "and its heap must hold no pages; livelock = step budget exhausted. Progress: remote_free_noticed (at quiescence a page with a non-empty "
+        "thread-free list has one of its blocks on the delayed list of its own live heap) and full_page_unfulled_by_drain (the owner's next "
+        "delayed-free drain terminates and leaves every such page out of the full queue with an empty thread list). Bounded memory on the real "
+        "code: producer/consumer schedules (mode prodcons) with a bounded number of live blocks must keep the owner's unreclaimed blocks and page "
+        "count below a bound derived from the live bound and the drain period (oracle `unbounded`).",
+   note="'Bounded memory' is established structurally in the model (nothing stays behind at quiescence; a noticed remote free un-fulls its page at "
+        "the next drain, which the owner starts at least every 100th generic allocation) and observed on the implementation by the `unbounded` "
+        "oracle under the deterministic scheduler; the numeric bound itself is a test, not a theorem.",
+   technique="Coq inductive invariant + quiescence and progress theorems over the interleaving model + schedule-lockstep + deterministic-scheduler quiescence and boundedness oracles",
    design="3/C08"),
  "C07": dict(
    text="Machine-checked proof (Coq 8.16.1) over an executable slice-granular model of the commit bookkeeping (arena blocks_inuse/committed/purge, "
